@@ -13,7 +13,7 @@ INNER_TYPES = [
     "Tag",  # constrained primitive (str)
     "Level",  # constrained primitive (int)
     "Item",  # concrete class without descendants
-    "Base",  # abstract class with model type
+    "Basis",  # abstract class with model type
     "Mid",  # concrete class with a descendant
 ]
 WRAPS = ["{t}", "Optional[{t}]", "List[{t}]", "Optional[List[{t}]]"]
@@ -50,8 +50,8 @@ class Item(DBC):
 
 @abstract
 @serialization(with_model_type=True)
-class Base(DBC):
-    """Represent a base."""
+class Basis(DBC):
+    """Represent a basis."""
 
     name: str
 
@@ -59,13 +59,13 @@ class Base(DBC):
         self.name = name
 
 
-class Mid(Base):
+class Mid(Basis):
     """Represent something in the middle."""
 
     size: int
 
     def __init__(self, name: str, size: int) -> None:
-        Base.__init__(self, name)
+        Basis.__init__(self, name)
         self.size = size
 
 
@@ -79,11 +79,11 @@ class Leaf(Mid):
         self.flag = flag
 
 
-class Other(Base):
+class Other(Basis):
     """Represent another descendant."""
 
     def __init__(self, name: str) -> None:
-        Base.__init__(self, name)
+        Basis.__init__(self, name)
 
 
 '''
